@@ -3,7 +3,7 @@ the abstraction `abs` of C01 and parallel batching."""
 import os, sys, subprocess, random
 from concurrent.futures import ThreadPoolExecutor
 sys.path.insert(0, os.path.join(os.path.dirname(os.path.abspath(__file__)), "..", "gen"))
-import charts, shrink
+import charts, shrink, exhaustive
 from uvlib import BrokenTie, hexs, chunks, DRIVER
 
 KEEP = ("bpe:", "bx:", "ax:", "bt:", "at:", "be:", "ae:", "bc:", "ac:", "log:", "bcomp", "acomp")
@@ -61,3 +61,20 @@ def first_diff(a, b):
     k = 0
     while k < min(len(a), len(b)) and a[k] == b[k]: k += 1
     return k
+
+
+def exhaustive_cases(tier):
+    """all charts with <= 4 states and <= 2 transitions, and all 5-state charts with a parallel of
+    >= 2 regions and two transitions (quick); all charts with <= 5 states and <= 2 transitions
+    (thorough). One event `e`."""
+    out = []
+    if tier == "quick":
+        for c in exhaustive.charts(4, 2): out.append((c, ["e"]))
+        for c in exhaustive.charts(5, 2):
+            if len(c.children) + sum(1 for _ in c.children[0].walk()) and sum(1 for x in c.walk() if x.kind != "scxml") == 5 and \
+               sum(len(x.trans) for x in c.walk()) == 2 and any(x.kind == "parallel" and len(x.children) >= 2 for x in c.walk()):
+                out.append((c, ["e"]))
+    else:
+        for c in exhaustive.charts(5, 2): out.append((c, ["e"]))
+        for c in exhaustive.charts(6, 1): out.append((c, ["e", "e"]))
+    return out
